@@ -56,10 +56,52 @@ void vh_init(int tier)
         }
 }
 
+/* letter block: inputs made of one or two different letters only: every single nucleotide letter and every pair of them
+   (A C G T U N in both cases: nucleotide), every single protein-only letter (protein); two sequences, totals 4 and 12; both entries */
+static const char NUCL[] = "ACGTUNacgtun";
+static const char PONLY[] = "DEFHIKLMPQRSVWYdefhiklmpqrsvwy";
+#define NLET (12 + 66 + 30)
+static uint64_t nletter(void) { return (uint64_t)NLET * 2 * 2; }
+
 uint64_t vh_total(int tier)
 {
         (void)tier;
-        return NVEC * NFACT * NARR * NENTRY;
+        return NVEC * NFACT * NARR * NENTRY + nletter();
+}
+
+static int letter_case(uint64_t id, char seqs[2][32], int* want, int* entry)
+{
+        int total, k, a = 0, b = 0, i;
+        *entry = (int)(id % 2);
+        id /= 2;
+        total = (id % 2) ? 12 : 4;
+        id /= 2;
+        k = (int)id;
+        if(k < 12){
+                a = b = k;
+                *want = ALN_BIOTYPE_DNA;
+        }else if(k < 12 + 66){
+                int q = k - 12, x, y, c = 0;
+                for(x = 0; x < 12; x++){
+                        for(y = x + 1; y < 12; y++, c++){
+                                if(c == q){
+                                        a = x;
+                                        b = y;
+                                }
+                        }
+                }
+                *want = ALN_BIOTYPE_DNA;
+        }else{
+                a = b = k - 78;
+                *want = ALN_BIOTYPE_PROTEIN;
+        }
+        for(i = 0; i < total; i++){
+                const char* L = *want == ALN_BIOTYPE_DNA ? NUCL : PONLY;
+                seqs[i % 2][i / 2] = L[(i % 3 == 1) ? b : a];
+        }
+        seqs[0][(total + 1) / 2] = 0;
+        seqs[1][total / 2] = 0;
+        return total;
 }
 
 struct kcase {
@@ -157,6 +199,13 @@ void vh_describe(uint64_t id, int tier, char* buf, size_t n)
 {
         struct kcase c;
         (void)tier;
+        if(id >= NVEC * NFACT * NARR * NENTRY){
+                char q[2][32];
+                int want, entry;
+                letter_case(id - NVEC * NFACT * NARR * NENTRY, q, &want, &entry);
+                snprintf(buf, n, "letter block: \"%s\" \"%s\" entry=%s expected %s", q[0], q[1], entry ? "array" : "fasta-file", want == ALN_BIOTYPE_DNA ? "nucleotide" : "protein");
+                return;
+        }
         build_case(id, &c);
         snprintf(buf, n, "shared=%d U=%d protein-only=%d other=%d non-residue=%d entry=%s seqs=%d first=\"%.60s\" second=\"%.60s\"", c.v.s, c.v.u,
                  c.v.p, c.v.o, c.nonres, c.entry == 0 ? "fasta-file" : (c.nonres ? "clustal-file" : "array"), c.nseq, c.seqs[0], c.seqs[1]);
@@ -168,14 +217,52 @@ int vh_case(uint64_t id, int tier)
         struct msa* m = NULL;
         int want, rc, k;
         (void)tier;
+        if(id >= NVEC * NFACT * NARR * NENTRY){
+                char q[2][32];
+                int entry;
+                letter_case(id - NVEC * NFACT * NARR * NENTRY, q, &want, &entry);
+                if(entry){
+                        char* seq[2];
+                        int len[2];
+                        for(k = 0; k < 2; k++){
+                                len[k] = (int)strlen(q[k]);
+                                q[k][len[k]] = want == ALN_BIOTYPE_DNA ? 'W' : 'A';
+                                seq[k] = q[k];
+                        }
+                        rc = kalign_arr_to_msa(seq, len, 2, &m);
+                }else{
+                        char txt[256];
+                        const char* path = vh_tmp("k.in");
+                        size_t o = (size_t)snprintf(txt, sizeof txt, ">s0\n%s\n>s1\n%s\n", q[0], q[1]);
+                        vh_write_file(path, txt, o);
+                        rc = kalign_read_input((char*)path, &m, 1);
+                }
+                if(rc != OK || !m){
+                        vh_fail("sem:kind.read-failed", "input could not be read");
+                }else if(m->biotype != want){
+                        vh_fail(want == ALN_BIOTYPE_DNA ? "sem:kind.nucleotide-premise.one-or-two-letters" : "sem:kind.protein-premise.one-letter",
+                                "detected as %s, premise says %s", m->biotype == ALN_BIOTYPE_DNA ? "nucleotide" : (m->biotype == ALN_BIOTYPE_PROTEIN ? "protein" : "undefined"),
+                                want == ALN_BIOTYPE_DNA ? "nucleotide" : "protein");
+                }else{
+                        vh_count("nontrivial_mixed_composition");
+                }
+                if(m){
+                        kalign_free_msa(m);
+                }
+                return VH_OK;
+        }
         build_case(id, &c);
         want = premise(&c.v) == 1 ? ALN_BIOTYPE_DNA : ALN_BIOTYPE_PROTEIN;
         if(c.entry == 1 && c.nonres == 0){
                 char* seq[3];
                 int len[3];
                 for(k = 0; k < c.nseq; k++){
-                        seq[k] = c.seqs[k];
+                        /* (pointer, length) slices: the byte after each sequence is not a terminator but, depending on the premise,
+                           a letter of the other kind - only the first len[k] bytes are the sequence */
                         len[k] = (int)strlen(c.seqs[k]);
+                        c.seqs[k][len[k]] = want == ALN_BIOTYPE_DNA ? 'W' : 'A';
+                        c.seqs[k][len[k] + 1] = 0;
+                        seq[k] = c.seqs[k];
                 }
                 rc = kalign_arr_to_msa(seq, len, c.nseq, &m);
         }else{
